@@ -4,7 +4,7 @@
    complex is exactly the clique family, it contains the source with its names, it is well formed,
    and taking the flag complex again adds nothing.  growFlagComplex = rebuild: tested only. *)
 From Coq Require Import String ZArith Bool Arith List.
-From SV Require Import Names Rep Complex Homology Filtration Gen World Small Sweeps NamesFacts RepInv Shapes FlagExt.
+From SV Require Import Names Rep Complex Homology Filtration Gen World Small Sweeps NamesFacts RepInv Shapes FlagExt VInv DD MinCycle FlagSound.
 
 Theorem C11_flag_is_clique_complex_upto4_partial : forall c, In c complexes4 -> chk_flag (build c) = true.
 Proof. exact flag_upto4. Qed.
@@ -27,3 +27,36 @@ Theorem C11_grow_adds_only_higher_simplices :
   forall r news r' x, sinv r -> growFlagComplex r news = (r', x) -> ext2 r r'.
 Proof. exact growFlagComplex_ext. Qed.
 Print Assumptions C11_grow_adds_only_higher_simplices.
+
+(* EVERY COMPLEX THAT MEETS THE VERTEX-SET READING (every in-contract history, C01) ------------------- *)
+(* the minimal-cycle lemma behind `_isClosed`: k+3 distinct simplices of order k+1 such that every
+   simplex is a face of an even number of them are the facets of one set B of k+3 points *)
+Theorem C11_closed_combination_is_a_set_of_facets :
+  forall r, vinv r -> forall k fs, NoDup fs -> length fs = S (S (S k)) ->
+  (forall f, In f fs -> exists j, assoc f (r_simp r) = Some (S k, j)) ->
+  (forall w, parity (map (fun f => memn w (faces r f)) fs) = false) ->
+  exists B, NoDup B /\ length B = S (S (S k)) /\
+     (forall f, In f fs -> incl (basisOf r f) B) /\
+     (forall p, In p B -> exists f, In f fs /\ In p (basisOf r f)).
+Proof. exact min_cycle. Qed.
+Print Assumptions C11_closed_combination_is_a_set_of_facets.
+
+(* soundness of flagComplex: the result meets the vertex-set reading again (k+1 points per simplex
+   of order k, no two simplices on one point set, closed under subsets) and every simplex of it sits
+   on points that are pairwise joined by an edge OF THE SOURCE *)
+Theorem C11_flag_simplices_sit_on_cliques :
+  forall hp src uid hp' r', vinv src -> flagComplex hp src uid = (hp', r', Ok tt) ->
+  vinv r' /\
+  (forall t p q, containsSimplex r' t = true -> In p (basisOf r' t) -> In q (basisOf r' t) -> p <> q ->
+     edge_of src p q).
+Proof. exact flagComplex_sound. Qed.
+Print Assumptions C11_flag_simplices_sit_on_cliques.
+
+(* the same for growFlagComplex, whatever it is given and however it ends *)
+Theorem C11_grow_simplices_sit_on_cliques :
+  forall r news r' x, vinv r -> growFlagComplex r news = (r', x) ->
+  vinv r' /\
+  (forall t p q, containsSimplex r' t = true -> In p (basisOf r' t) -> In q (basisOf r' t) -> p <> q ->
+     edge_of r p q).
+Proof. exact growFlagComplex_sound. Qed.
+Print Assumptions C11_grow_simplices_sit_on_cliques.
